@@ -15,6 +15,7 @@ import time
 VERIF = os.path.dirname(os.path.dirname(os.path.abspath(__file__)))
 LEAN = os.path.join(VERIF, "lean")
 REPO = os.environ.get("YNCA_REPO", "/repo")
+EVID = os.environ.get("VERIF_EVIDENCE_DIR") or os.path.join(os.path.dirname(os.path.dirname(os.path.abspath(__file__))), "evidence")   # developer runs against scratch trees write elsewhere
 PY = "/venv/bin/python"
 if REPO not in sys.path:
     sys.path.insert(0, REPO)          # the working tree under verification takes precedence over any installed copy
@@ -220,7 +221,7 @@ class Ctx:
         self.distinct = set()
         self.dist = {}
         import glob
-        for old in glob.glob(os.path.join(VERIF, "evidence", "replays", f"{pid}-*.json")):
+        for old in glob.glob(os.path.join(EVID, "replays", f"{pid}-*.json")):
             try:
                 os.unlink(old)
             except OSError:
@@ -317,9 +318,9 @@ class Ctx:
         if self.sig_counts[key] > 2 or len([v for v in self.violations if v[1]]) >= 12:
             self.violations.append((what, None))
             return True
-        os.makedirs(os.path.join(VERIF, "evidence", "replays"), exist_ok=True)
+        os.makedirs(os.path.join(EVID, "replays"), exist_ok=True)
         h = hashlib.sha1(json.dumps(replay, sort_keys=True, default=str).encode()).hexdigest()[:10]
-        path = os.path.join(VERIF, "evidence", "replays", f"{self.pid}-{h}.json")
+        path = os.path.join(EVID, "replays", f"{self.pid}-{h}.json")
         with open(path, "w") as f:
             json.dump({"property": self.pid, "what": what, "tier": self.tier, "seed": self.seed, "replay": replay}, f, indent=1, default=str)
         if path not in [v[1] for v in self.violations]:
@@ -341,8 +342,8 @@ class Ctx:
                 log("  ", what)
             exit_code = 1
         elif self.broken:
-            os.makedirs(os.path.join(VERIF, "evidence", "replays"), exist_ok=True)
-            path = os.path.join(VERIF, "evidence", "replays", f"{self.pid}-broken.json")
+            os.makedirs(os.path.join(EVID, "replays"), exist_ok=True)
+            path = os.path.join(EVID, "replays", f"{self.pid}-broken.json")
             with open(path, "w") as f:
                 json.dump({"property": self.pid, "no_longer_checks": self.broken,
                            "note": "a proof obligation or the model/implementation correspondence no longer checks; "
@@ -380,8 +381,8 @@ class Ctx:
             "wall_s": round(wall, 2),
             "violations": len(self.violations) + (1 if (self.broken and not real) else 0),
         }
-        os.makedirs(os.path.join(VERIF, "evidence"), exist_ok=True)
-        with open(os.path.join(VERIF, "evidence", f"{self.pid}.json"), "w") as f:
+        os.makedirs(EVID, exist_ok=True)
+        with open(os.path.join(EVID, f"{self.pid}.json"), "w") as f:
             json.dump(ev, f, indent=1, default=str)
         log(f"[{self.pid}] tier={self.tier} seed={self.seed} obligations={self.discharged}/{self.obligations} "
             f"evaluations={self.evaluations} distinct={len(self.distinct)} violations={len(self.violations)} "
